@@ -308,6 +308,10 @@ func runRegress(t *testing.T, name, sig string, h *History, prep func(*sim)) {
 		t.Logf("known finding reproduced (%s) at step %d: %s", sig, step, v.msg)
 		return
 	}
+	if v.sig != "" && knownFinding(v.sig) {
+		t.Logf("reproduction of %s stopped at another known finding (%s) at step %d: %s", sig, v.sig, step, v.msg)
+		return
+	}
 	t.Fatalf("%s: step %d, signature %q\n%s\nhistory: %s", name, step, v.sig, v.msg, h.JSON())
 }
 
@@ -345,7 +349,8 @@ func TestRegressRevertOfAddedKeyRestoresRoot(t *testing.T) {
 // S14: Init recovery (application one block ahead of the engine) dereferences the nil execution context.
 func TestRegressInitRecoveryAppAhead(t *testing.T) {
 	for d := 1; d <= 2; d++ {
-		h := &History{Steps: []Step{
+		// the blocks only overwrite a key that exists since genesis, so the reverted diffs contain no added key (keeps S13 out)
+		h := &History{Genesis: [2]genesisScript{{Init: []Op{{K: "set", S: 0, Key: 1, Val: 3}}}, {}}, Steps: []Step{
 			{Kind: "block", Block: oneTxBlock(TxScript{Cmd: []Op{{K: "set", S: 0, Key: 1, Val: 1}}})},
 			{Kind: "block", Block: oneTxBlock(TxScript{Cmd: []Op{{K: "set", S: 0, Key: 1, Val: 2}}})},
 			{Kind: "restart", D: d},
